@@ -133,7 +133,8 @@ theorem restoreFile_names (cfg : Cfg) (name : Path) (fi : Info) :
         let replaced := match baseFi with
           | some b => !b.isRegular
           | none => false
-        whenM (!fi'.isRegular || replaced) (primUnit cfg .base (.removeAll name))
+        if !fi'.isRegular then primUnit cfg .base (.removeAll name)
+        else whenM replaced (primUnit cfg .base (.remove name))
         copyFile cfg .base name fi f)
       let _ ← attempt (hClose f)
       match r with
@@ -147,8 +148,11 @@ theorem restoreFile_names (cfg : Cfg) (name : Path) (fi : Info) :
       apply Logs.bind (Logs.getW _); intro w
       split <;> first | exact Logs.pure _ _ | exact Logs.throw _ _); intro fi'
     apply Logs.bind (lexists_names cfg .base name); intro baseFi
-    apply Logs.bind (whenM_logs (primUnit_logs cfg .base _ (primCall_names cfg .base _ name rfl))); intro _
-    exact copyFile_names cfg .base name fi f ha)); intro r
+    apply Logs.ite
+    · apply Logs.bind (primUnit_logs cfg .base _ (primCall_names cfg .base _ name rfl)); intro _
+      exact copyFile_names cfg .base name fi f ha
+    · apply Logs.bind (whenM_logs (primUnit_logs cfg .base _ (primCall_names cfg .base _ name rfl))); intro _
+      exact copyFile_names cfg .base name fi f ha)); intro r
   apply Logs.bind (Logs.attempt (by unfold hClose; exact ha ▸ primH_names f "close" [] false (by decide))); intro _
   cases r with
   | ok u => exact Logs.pure _ _
